@@ -500,3 +500,134 @@ def r_batch_reset(cx):
 
 def is_zero(t):
     return t[0] == "const" and t[2] == 0 and not isinstance(t[2], bool)
+
+
+# ---------------------------------------------------------------------------------------------------------------------
+# R-KP-ROUNDTRIP (C20): --roundtrip prints result minus input
+
+def _root_name(f, l, depth=0):
+    """name of the variable a temporary is (an element of / a reference into), through copies, borrows and Index"""
+    for _ in range(8):
+        nm = f.name_of_local.get(l)
+        if nm:
+            return nm
+        defs = f.defs().get(l, ())
+        if len(defs) != 1:
+            return None
+        bb, i, kind = defs[0][0], defs[0][1], defs[0][2]
+        if kind == "calldest":
+            t = f.term(bb)
+            c = f.callee(t) or ""
+            if c.rsplit("::", 1)[-1] in ("index", "index_mut", "deref", "deref_mut", "as_slice", "as_mut_slice") and t["args"]:
+                pl = mir.op_place(t["args"][0])
+                if pl is None:
+                    return None
+                l = pl["l"]
+                continue
+            return None
+        if i is None or i >= len(f.stmts(bb)):
+            return None
+        s = f.stmts(bb)[i]
+        if s["k"] != "assign":
+            return None
+        rv = s["rv"]
+        if rv["k"] in ("use", "cast"):
+            p = mir.op_place(rv["a"])
+        elif rv["k"] in ("ref", "rawptr"):
+            p = rv["place"]
+        else:
+            return None
+        if p is None:
+            return None
+        l = p["l"]
+    return None
+
+
+@rule("R-KP-ROUNDTRIP", ["C20"])
+def r_kp_roundtrip(cx):
+    """In kp's transform the roundtrip residual of a tuple is `operands[i] - buffer[i]`: the tuple after the forward
+    and inverse application minus the copy of the input taken before - in this order (the library's own roundtrip
+    examples and the rumination on kp define the residual as result minus input)."""
+    f = kp_fn(cx, "transform")
+    n = 0
+    # the copy of the input: the vector that receives clone_from(operands)
+    copies = set()
+    for bb, t in f.calls():
+        if (_callee(f, t)).endswith("::clone_from") and t["args"]:
+            pl = mir.op_place(t["args"][0])
+            if pl is not None:
+                nm = _root_name(f, pl["l"])
+                if nm:
+                    copies.add(nm)
+    for bb, t in f.calls():
+        c = _callee(f, t)
+        if not (c.endswith("::sub") and "Coor4D" in (t.get("callee_full") or c)):
+            continue
+        n += 1
+        names = []
+        for a in t["args"]:
+            pl = mir.op_place(a)
+            names.append(_root_name(f, pl["l"]) if pl is not None else None)
+        ok = len(names) == 2 and names[1] in copies and names[0] is not None and names[0] not in copies
+        cx.ob("R-KP-ROUNDTRIP", "transform/residual%d" % (n - 1), ok,
+              "the roundtrip residual is %s[i] - %s[i] (result minus saved input)" % (names[0], names[1]) if ok else
+              "kp transform computes the roundtrip residual as %s - %s: it must be the roundtrip result minus the saved "
+              "input (%s)" % (names[0], names[1] if len(names) > 1 else "?", ", ".join(sorted(copies)) or "no copy found"),
+              cx.where(t["span"]))
+    if n == 0:
+        cx.ob("R-KP-ROUNDTRIP", "transform/residual0", False, "anchor-missing: no Coor4D subtraction in kp transform",
+              cx.where(f.d["span"]))
+    cx.count("R-KP-ROUNDTRIP", "residuals", n)
+
+
+# ---------------------------------------------------------------------------------------------------------------------
+# R-KP-DECIMALS (C20): a requested number of decimals is used as given
+
+@rule("R-KP-DECIMALS", ["C20"])
+def r_kp_decimals(cx):
+    """`-d N` is honoured for every N: in kp's transform no branch depends on the *value* of the requested number of
+    decimals (only on whether one was requested), so `-d 0` is not mistaken for "not given"."""
+    f = kp_fn(cx, "transform")
+    adt = cx.f.kp["adts"]["Cli"]
+    di = [x["name"] for x in adt["variants"][0]["fields"]].index("decimals")
+    field = ("proj", ("proj", ("arg", 1), "deref"), ("f", di))
+    n = 0
+    bad = None
+    for bb in sorted(f.reachable()):
+        t = f.term(bb)
+        if t["k"] != "switch":
+            continue
+        c = f.operand(t["discr"], f.end_point(bb))
+        hit = []
+
+        def v(x):
+            if x == field:
+                hit.append(1)
+                return False
+            return True
+        mir.walk(c, v)
+        if not hit:
+            continue
+        n += 1
+        if c[0] != "discr":
+            bad = bad or (bb, c)
+    for bb, t in f.calls():
+        for a in f.arg_terms(bb):
+            hit = []
+
+            def v2(x):
+                if x == field:
+                    hit.append(1)
+                    return False
+                return True
+            mir.walk(a, v2)
+            if hit:
+                n += 1
+                break
+    cx.ob("R-KP-DECIMALS", "transform/decimals", bad is None and n > 0,
+          "the requested decimals are only tested for presence, never for their value" if bad is None and n > 0 else
+          ("kp transform branches on the value of the requested number of decimals (%s): some `-d N` is treated as if "
+           "it had not been given" % mir.show(bad[1])[:60]) if bad else
+          "anchor-missing: the decimals option is not consulted in kp transform",
+          cx.where(f.term(bad[0])["span"]) if bad else cx.where(f.d["span"]))
+    cx.count("R-KP-DECIMALS", "tests_of_decimals", n)
